@@ -19,7 +19,7 @@ var (
 )
 
 func c07Init(w *harness.World) {
-	v := harness.Choose(6, harness.ClassOp)
+	v := harness.Choose(7, harness.ClassOp)
 	w.Hist = append(w.Hist, fmt.Sprintf("init%d", v))
 	w.SetCollection("x", "nil")
 	three := func() {
@@ -50,6 +50,12 @@ func c07Init(w *harness.World) {
 		w.Flush()
 		w.SetItem("x", bs("f"), 5, bs("vf"))
 		w.Evict("x")
+	case 6: // a 15-item tree of four full levels, re-opened: b sits at depth 2 and has two children
+		for i, k := range []string{"h", "d", "l", "b", "f", "j", "n", "a", "c", "e", "g", "i", "k", "m", "o"} {
+			w.SetItem("x", bs(k), int32(200-10*i), bs("v"+k))
+		}
+		w.Flush()
+		w.Reopen(true)
 	case 5: // two collections, both with unflushed changes (x is written before y)
 		three()
 		w.SetCollection("y", "nil")
@@ -84,6 +90,7 @@ func c07Letters(w *harness.World) []Letter {
 			Letter{"Set(c,9)", func(w *harness.World) { w.SetItem("x", k7c, 9, bs("new")) }},
 			Letter{"Set(cc,55)", func(w *harness.World) { w.SetItem("x", k7cc, 55, bs("vcc")) }},
 			Letter{"Del(b)", func(w *harness.World) { w.Delete("x", k7b) }},
+			Letter{"Del(a)", func(w *harness.World) { w.Delete("x", bs("a")) }},
 			Letter{"Evict", func(w *harness.World) { w.Evict("x") }})
 	}
 	ls = append(ls,
@@ -194,7 +201,7 @@ func c07ExecMon(depth int, maxFaults int, tornAll bool, mon harness.Monitors) ex
 func c07Profiles(tier string) []Profile {
 	sparse := "writes failing outright and after 0, 1, n/2, n-1 bytes applied"
 	rule := func(d int, torn string, rnd string) string {
-		return fmt.Sprintf("6 initial stores (empty; 3 items flushed and re-opened; two root records with the tree cached; a 7-item tree flushed and re-opened; durable state plus unflushed changes; two collections with unflushed changes in both) x every history of length <= %d over Get/GetItem/Min/Totals/visit/iterator/Len/Exist/Set (overwrite and new key)/Delete/Evict/Flush/CopyTo(flushEvery 0,1; faults on the source and, separately, on the destination file)/FlushRevert/Reopen x one failing file call at every ReadAt/WriteAt/Stat/Truncate index, %s; eviction walks follow %s; the failed call is either retried at once or not retried (both explored) and the history continues fault-free; then a fixed suffix runs (re-open after a failed open/FlushRevert; Set; Flush; full read battery; copy of the file re-opened; Reopen; full read battery). Oracles: the failing call returns an error and no data, nothing panics or hangs, contents equal the model unchanged by the failed call, the file re-opens to a durable state of the model, the retried call and everything after behave per model", d, torn, rnd)
+		return fmt.Sprintf("7 initial stores (empty; 3 items flushed and re-opened; two root records with the tree cached; a 7-item tree flushed and re-opened; durable state plus unflushed changes; two collections with unflushed changes in both; a 15-item tree of four full levels flushed and re-opened) x every history of length <= %d over Get/GetItem/Min/Totals/visit/iterator/Len/Exist/Set (overwrite and new key)/Delete (a key near the root, a key at depth 2 of the 7-item tree)/Evict/Flush/CopyTo(flushEvery 0,1; faults on the source and, separately, on the destination file)/FlushRevert/Reopen x one failing file call at every ReadAt/WriteAt/Stat/Truncate index, %s; eviction walks follow %s; the failed call is either retried at once or not retried (both explored) and the history continues fault-free; then a fixed suffix runs (re-open after a failed open/FlushRevert; Set; Flush; full read battery; copy of the file re-opened; Reopen; full read battery). Oracles: the failing call returns an error and no data, nothing panics or hangs, contents equal the model unchanged by the failed call, the file re-opens to a durable state of the model, the retried call and everything after behave per model", d, torn, rnd)
 	}
 	if tier != "thorough" {
 		return []Profile{{Name: "single", Exec: c07Exec(2, 1, false), Budget: map[int]int{explore.ClassFault: 1, explore.ClassRand: 0}, ShardLevel: 3,
